@@ -19,7 +19,7 @@ Types == Leafs \cup Depth1 \cup Depth2 \cup (IF IOEnv.SYN_SCOPE = "thorough" THE
 
 Unit(v) == [p |-> "unit", v |-> v]
 Rng(lo, hi) == [p |-> "range", lo |-> lo, hi |-> hi]
-ParamVariants == << <<>>, <<Unit("m/s")>>, <<Rng("-1.5", "2.0")>>, <<Unit("V"), Rng("0", "1e3")>>, <<Rng("-7", "7.25"), Unit("deg C")>> >>
+ParamVariants == << <<>>, <<Unit("m/s")>>, <<Rng("-1.5", "0.1")>>, <<Unit("V"), Rng("0", "1e3")>>, <<Rng("-7", "7.25"), Unit("deg C")>> >>
 
 Fld(n, id, t, ps) == [name |-> n, id |-> id, type |-> t, params |-> ps]
 EnumEa == [kind |-> "enum", name |-> "Ea", items |-> <<[name |-> "Xa", value |-> 0], [name |-> "Xb", value |-> 5]>>]
